@@ -39,7 +39,9 @@ MODELS = [('pit', 'pit1d', {}), ('pit', 'pit2d', {}), ('mps', 'mps_a', {}), ('mp
 
 
 def cases(tier, seed):
-    out = []
+    out = [{'fam': 'saved', 'method': 'mps', 'model': 'mps_a', 'kw': {}, 'tier': tier},
+           {'fam': 'saved', 'method': 'mps', 'model': 'mps_b', 'kw': {'per_channel': True}, 'tier': tier},
+           {'fam': 'saved', 'method': 'mps', 'model': 'mps_a', 'kw': {'per_channel': True}, 'tier': tier}]
     for method, name, kw in MODELS:
         for first in _alphabet(method) + [None]:
             out.append({'method': method, 'model': name, 'kw': kw, 'first': first, 'tier': tier})
@@ -114,6 +116,11 @@ def _apply(nas, x, op, method, k, opts):
     elif op == 'gumbel=1':
         nas.update_softmax_options(gumbel=True)
         opts['gumbel'] = True
+    elif op == 'dis=1':
+        # "use the saved coefficients": with sampling disabled the usual forward does not re-sample, so the sampled coefficients
+        # themselves must come from the checkpoint
+        nas.update_softmax_options(disable_sampling=True)
+        opts['dis'] = True
     else:
         raise ValueError(op)
 
@@ -128,6 +135,8 @@ def _reapply(nas, opts, keys):
             nas.update_softmax_options(hard=opts[k])
         elif k == 'gumbel':
             nas.update_softmax_options(gumbel=opts[k])
+        elif k == 'dis':
+            nas.update_softmax_options(disable_sampling=opts[k])
 
 
 def _observe(nas, x, trainable_names, with_export=True):
@@ -173,7 +182,68 @@ def _restore(case, seed, sd, training):
     return fresh, list(res.missing_keys), list(res.unexpected_keys)
 
 
+SAVED_HISTS = [(), ('step_nas',), ('step_nas', 'step_nas'), ('setcoef',), ('step_net', 'step_nas'), ('setcoef', 'step_nas', 'step_net'),
+               ('temp=0.5', 'step_nas'), ('hard=1', 'step_nas')]
+
+
+def _run_saved(case, seed):
+    """"Use the saved coefficients": after a history the model is put in the documented fine-tuning configuration
+    (update_softmax_options(disable_sampling=True)), checkpointed and restored into a fresh wrapper on which the harness re-applies that
+    one option (it is an explicit part of the scenario, not something the checkpoint is expected to carry).  With sampling disabled the
+    usual forward does not re-sample, so the sampled coefficients themselves must come from the checkpoint (they are registered buffers).
+    No backward pass is made in this family."""
+    method = case['method']
+    res = {'states': 0, 'transitions': 0, 'evals': 0, 'nontrivial': [], 'outcomes': set(), 'violations': []}
+    base_case = {k: v for k, v in case.items() if k != 'only'}
+    only = case.get('only')
+    for hist in SAVED_HISTS:
+        for mode in ('train', 'eval'):
+            label = {'history': list(hist), 'mode': mode}
+            if only is not None and only != label:
+                continue
+            nas, x = _make(case, seed)
+            opts = {}
+            for k, op in enumerate(hist):
+                _apply(nas, x, op, method, k, opts)
+            nas.train(mode == 'train')
+            with torch.no_grad():
+                torch.manual_seed(31)
+                nas(x)
+            nas.update_softmax_options(disable_sampling=True)
+            sd = copy.deepcopy(nas.state_dict())
+            fresh, missing, unexpected = _restore(case, seed, sd, nas.training)
+            _reapply(fresh, opts, sorted(opts))          # this family is about the coefficients only: post-construction options are re-applied
+            fresh.update_softmax_options(disable_sampling=True)
+            res['states'] += 1
+            res['transitions'] += len(hist) + 1
+            res['evals'] += 1
+            res['nontrivial'].append(f'saved/{case["model"]}/{hist}/{mode}')
+            obs = []
+            for m in (nas, fresh):
+                with torch.no_grad():
+                    torch.manual_seed(32)
+                    y = m(x)
+                    obs.append({'out': F.tensor_hash(y), 'cost': [round(float(m.get_cost('a')), 3), round(float(m.get_cost('b')), 3)],
+                                'summary': F.canon(m.summary()), 'sampled': F.canon(m.nas_parameters_summary(post_sampling=True))})
+            diffs = [k for k in obs[0] if obs[0][k] != obs[1][k]]
+            if missing or unexpected:
+                diffs.append('keys')
+            if diffs:
+                res['outcomes'].add('differs')
+                res['violations'].append({'kind': 'saved-coefficients-not-restored', 'sig': f'saved-coefficients-not-restored/{method}/' + '+'.join(sorted(diffs)),
+                                          'msg': f'{case["model"]}: history {list(hist)}, {mode} mode, sampling disabled, checkpoint -> fresh wrapper (+ same options): '
+                                                 f'differs in {diffs}: ' + '; '.join(f'{k}: {str(obs[0].get(k))[:70]} vs {str(obs[1].get(k))[:70]}' for k in diffs[:2]),
+                                          'case': dict(base_case, only=label)})
+            else:
+                res['outcomes'].add('identical')
+    res['outcomes'] = sorted(res['outcomes'])
+    res['sample'] = {'family': 'saved coefficients (disable_sampling)', 'model': case['model'], 'histories': [list(h) for h in SAVED_HISTS]}
+    return res
+
+
 def run_case(case, seed):
+    if case.get('fam') == 'saved':
+        return _run_saved(case, seed)
     tier = case.get('tier', 'quick')
     depth = bounds(tier)['depth']
     method = case['method']
